@@ -14,6 +14,8 @@ Step == /\ l <= Len(Trace) /\ l' = l + 1
            \/ /\ Ev.op = "auth" /\ ~Ev.panic /\ UNCHANGED table
               /\ Ev.ok = A!Admit(table, Ev.u, Ev.p)
               /\ (Ev.ok => Ev.mount = A!MountOf(table, Ev.u, Ev.p))
+           \/ /\ Ev.op = "ids" /\ UNCHANGED table                           \* sessions admitted at the same time are distinct sessions:
+              /\ Ev.distinct = Ev.n                                       \* the identifiers handed out for them are pairwise different
            \/ /\ Ev.op = "connect" /\ UNCHANGED table                       \* broker level
               /\ (Ev.code = 0) = A!Admit(table, Ev.u, Ev.p)
               /\ (Ev.code # 0 => Ev.sessions = 0 /\ Ev.subs = 0 /\ Ev.local = 0)
